@@ -32,6 +32,7 @@ import (
 	"math/rand"
 	"os"
 	"path/filepath"
+	"runtime/debug"
 	"sort"
 	"strconv"
 	"strings"
@@ -143,7 +144,6 @@ var specs = []spec{
 	{"app/Magic.dll", "", "", "#pe"},
 	{"app/Magic.exe", "", "", "#pe"},
 }
-
 
 // group: an extractor's primary file and the auxiliary files it opens (or that its database library looks for) itself
 type group struct {
@@ -312,6 +312,10 @@ func runCase(route byte, seed int64, variants string, id int) string {
 	if len(variants) != len(specs) {
 		return "bad-case"
 	}
+	// bbolt maps the database file: a truncated meta.db / metadata.db makes the containerd extractor read past the mapping, a
+	// fault that kills the process (seen about once in ten runs, depending on the memory layout). Turn it into a panic the
+	// harness recovers and reports as status=panic (a C02 matter) instead of losing the whole stream.
+	defer debug.SetPanicOnFault(debug.SetPanicOnFault(true))
 	cr := rand.New(rand.NewSource(seed))
 	root := filepath.Join(base, fmt.Sprintf("s%d", id))
 	tree, tmp, cwd := filepath.Join(root, "tree"), filepath.Join(root, "tmp"), filepath.Join(root, "cwd")
